@@ -11,9 +11,32 @@ Print Assumptions C16_payload_describes.
 
 Example C16_payload_describes_satisfiable :
   exists pl, prepare (mkpf (Some 6) (Some 1) (Some 4) (Some 1) true false false)
-     (mkproc (mkcirc 7 4 [0; 1; 2; 3] []) [] [] [(3, 1)] (Some [1; 0; 0; 1]) (Some [([0], (0, 1))]) (Some [(0, 500%Z)]) (Some 0)) 0
-     = Ok pl /\ lookup KHeralds pl = Some (VHer [(3, 1)]) /\ lookup KParams pl = Some (VParams (Some 0)).
+     (mkproc (mkcirc 7 4 [0; 1; 2; 3] []) [] [] [(3, 1)] (Some [1; 0; 0; 1]) (Some [([0], (0, 1))]) (Some [(0, 500%Z)]) (Some 0) [[(0, None)]]) 0
+     = Ok pl /\ lookup KHeralds pl = Some (VHer [(3, 1)]) /\ lookup KParams pl = Some (VParams [(0, Some 0%Z)]).
 Proof. eexists. vm_compute. repeat split. Qed.
+
+(* the minimum-photon filter of the request is the one the processor reports, by whatever route it got there (the
+   setter, a LogicalState default, the experiment object, an assigned experiment, after clear_parameters, filter 0):
+   prepare reads the processor's state, not the bookkeeping of the setter *)
+Theorem C16_request_filter_is_processor_filter : forall pf p c pl, prepare pf p c = Ok pl ->
+  exists d, lookup KParams pl = Some (VParams d) /\ dget d 0 = zf (p_filter p) /\ v_filter (describe pl) = p_filter p.
+Proof. exact request_filter_is_processor_filter. Qed.
+Print Assumptions C16_request_filter_is_processor_filter.
+
+Example C16_filter_routes :
+  let pf := mkpf None None None None true false false in
+  let p0 := mkproc (mkcirc 7 2 [0; 1] []) [] [0; 1] [] None None None None [[(0, None)]] in
+  (* LogicalState default, then clear_parameters, then a filter written on the experiment object *)
+  forall p1 p2 p3, apply_op p0 (OInputLogical [1; 1]) = Ok p1 -> apply_op p1 OClearParams = Ok p2 ->
+    apply_op p2 (OExpFilter (Some 0)) = Ok p3 ->
+    (exists pl, prepare pf p1 0 = Ok pl /\ v_filter (describe pl) = Some 2) /\
+    (exists pl, prepare pf p2 0 = Ok pl /\ v_filter (describe pl) = Some 2) /\
+    (exists pl, prepare pf p3 0 = Ok pl /\ v_filter (describe pl) = Some 0).
+Proof.
+  cbn zeta. intros p1 p2 p3 H1 H2 H3. vm_compute in H1. inversion H1; subst; clear H1.
+  vm_compute in H2. inversion H2; subst; clear H2. vm_compute in H3. inversion H3; subst; clear H3.
+  repeat split; eexists; vm_compute; split; reflexivity.
+Qed.
 
 (* Platform size and photon-count constraints hold of whatever prepare accepts ... *)
 Theorem C16_constraints_enforced : forall pf p c pl, prepare pf p c = Ok pl -> cons_ok pf (describe pl).
@@ -74,6 +97,14 @@ Theorem C16_iterator_read_at_execution : forall j f it args kw r, exec_payload j
   iter_of r = match lookup KIterator (j_pl j) with Some _ => it | None => [] end.
 Proof. exact exec_iterator_is_current. Qed.
 Print Assumptions C16_iterator_read_at_execution.
+
+(* a job executed as created carries the filter the processor reported at creation *)
+Theorem C16_fresh_job_filter : forall pf p shots its gen m j it args kw r,
+  create_job pf p shots its gen m = Ok j ->
+  exec_payload j (nth (j_pgen j) (p_pdicts (job_sync pf p its m)) []) it args kw = Ok r ->
+  v_filter (describe r) = p_filter p.
+Proof. exact fresh_job_filter. Qed.
+Print Assumptions C16_fresh_job_filter.
 
 (* argument routing *)
 Theorem C16_keywords_routed_or_rejected : forall names cmd mapp args kw cmd' map',
@@ -139,7 +170,7 @@ Print Assumptions C16_every_request_describes_and_respects.
 
 Example C16_session_satisfiable :
   let pf := mkpf (Some 6) None (Some 4) None true false false in
-  let p := mkproc (mkcirc 7 3 [0; 1; 2] []) [] [] [] (Some [1; 1; 0]) None None (Some 2) in
+  let p := mkproc (mkcirc 7 3 [0; 1; 2] []) [] [] [] (Some [1; 1; 0]) None None (Some 2) [[(0, Some 2%Z)]] in
   exists s0, init_sess pf p (Some 100%Z) = Ok s0 /\
     snd (run s0 [EJob MSampleCount; EExec 0 [Some 500%Z] [] 1]) = [ODone; OSent] /\
     length (s_net (fst (run s0 [EJob MSampleCount; EExec 0 [Some 500%Z] [] 1]))) = 1.
@@ -176,8 +207,8 @@ Proof. exact from_local_preserves. Qed.
 Print Assumptions C16_from_local_preserves.
 
 Example C16_from_local_preserves_satisfiable :
-  from_local (mkproc (mkcirc 0 4 [0; 1; 2; 3] []) [] [] [(1, 1); (3, 0)] (Some [1; 1; 0; 0]) None None (Some 1))
-  = Ok (mkproc (mkcirc 0 4 [0; 2; 1; 3] []) [] [] [(2, 1); (3, 0)] (Some [1; 0; 1; 0]) None (Some []) (Some 1)).
+  from_local (mkproc (mkcirc 0 4 [0; 1; 2; 3] []) [] [] [(1, 1); (3, 0)] (Some [1; 1; 0; 0]) None None (Some 1) [[(0, Some 1%Z)]])
+  = Ok (mkproc (mkcirc 0 4 [0; 2; 1; 3] []) [] [] [(2, 1); (3, 0)] (Some [1; 0; 1; 0]) None (Some []) (Some 1) [[(0, Some 1%Z)]]).
 Proof. vm_compute. reflexivity. Qed.
 
 (* historical: the code before that repair refused every processor that had a herald and an input ... *)
@@ -204,6 +235,6 @@ Proof. exact with_input_full. Qed.
 Print Assumptions C16_input_includes_herald_photons.
 
 Example C16_input_includes_herald_photons_satisfiable :
-  apply_op (mkproc (mkcirc 0 4 [0; 1; 2; 3] []) [] [] [(1, 1); (0, 0)] None None None None) (OInput [1; 0])
-  = Ok (mkproc (mkcirc 0 4 [0; 1; 2; 3] []) [] [] [(1, 1); (0, 0)] (Some [0; 1; 1; 0]) None None None).
+  apply_op (mkproc (mkcirc 0 4 [0; 1; 2; 3] []) [] [] [(1, 1); (0, 0)] None None None None [[(0, None)]]) (OInput [1; 0])
+  = Ok (mkproc (mkcirc 0 4 [0; 1; 2; 3] []) [] [] [(1, 1); (0, 0)] (Some [0; 1; 1; 0]) None None None [[(0, None)]]).
 Proof. reflexivity. Qed.
